@@ -8,6 +8,12 @@ COMMON_TRUSTED = [
 ]
 
 CONF = {
+    "C09": {
+        "n": {"quick": 700, "thorough": 10000},
+        "shard": 350,
+        "trusted_base": [],
+        "assumptions": ["non-root pointers; the '-' token is out of scope; tokens are not of the form name[digits] (on a container Child would resolve them as list items)"],
+    },
     "C08": {
         "n": {"quick": 700, "thorough": 10000},
         "shard": 350,
